@@ -40,6 +40,7 @@ func makeAvailableMemory(cache *MemCache, requiredMem, maxMem, minMem uint64) er
 		}
 		requiredMem = (available / minMem) * minMem
 	}
+	requiredMem = verifCacheCap(requiredMem)
 	cache.Update(requiredMem)
 	return nil
 }
@@ -101,8 +102,10 @@ func (mdb *MassDBV1) executePlot(result chan error) {
 	}
 	logging.CPrint(logging.INFO, "remove hashMapA",
 		logging.LogFormat{"bit_length": mdb.bl, "pub_key": hex.EncodeToString(mdb.pubKey.SerializeCompressed())})
+	verifPoint(mdb, "beforeRemoveA", 0, 0)
 	mdb.HashMapA.Close()
 	os.Remove(mdb.filePathA)
+	verifPoint(mdb, "afterRemoveA", 0, 0)
 	mdb.HashMapA = nil
 	logging.CPrint(logging.INFO, "plot finished",
 		logging.LogFormat{"bit_length": mdb.bl, "pub_key": hex.EncodeToString(mdb.pubKey.SerializeCompressed())})
@@ -129,11 +132,13 @@ func (mdb *MassDBV1) prePlotWork(cache *MemCache) error {
 		return pocutil.PoCValue(cache.Len()/recordSize - rem)
 	}
 	for startPoint := checkpoint; startPoint < hmA.volume; {
+		verifPoint(mdb, "A.iter", startPoint, hmA.volume)
 		if err := ensureCacheMemory(startPoint); err != nil {
 			return err
 		}
 		endPoint := startPoint + calcWindowSize() // slide windows defined by [start, end)
 		logging.CPrint(logging.DEBUG, "assign hashMapA calculation work", logging.LogFormat{"start_point": startPoint, "end_point": endPoint})
+		verifPoint(mdb, "A.window", startPoint, endPoint)
 		for x := pocutil.PoCValue(0); x < hmA.volume; x++ {
 			// calc and write the cache
 			y := pocutil.P(x, bl, pkHash)
@@ -169,16 +174,19 @@ func (mdb *MassDBV1) prePlotWork(cache *MemCache) error {
 			return err
 		}
 		hmA.data.Sync() // write pre-plot data first
+		verifPoint(mdb, "A.dataSynced", startPoint, endPoint)
 
 		hmA.checkpoint = startPoint + 1
 		hmA.UpdateCheckpoint()
 		hmA.data.Sync() // then write new checkpoint
+		verifPoint(mdb, "A.ckptSynced", startPoint, endPoint)
 		startPoint = endPoint
 	}
 
 	hmA.checkpoint = hmA.volume
 	hmA.UpdateCheckpoint()
 	hmA.data.Sync()
+	verifPoint(mdb, "A.final", hmA.volume, hmA.volume)
 	return nil
 }
 
@@ -210,12 +218,14 @@ func (mdb *MassDBV1) plotWork(cache *MemCache) error {
 		return pocutil.PoCValue((cache.Len() / recordSize) >> 2)
 	}
 	for startPoint := checkpoint; startPoint < half; {
+		verifPoint(mdb, "B.iter", startPoint, half)
 		if err := ensureCacheMemory(startPoint); err != nil {
 			return err
 		}
 		endPoint := startPoint + calcWindowSize() // slide windows defined by [start, end)
 		doubleStartPoint, doubleEndPoint := startPoint<<1, endPoint<<1
 		logging.CPrint(logging.DEBUG, "assign hashMapB calculation work", logging.LogFormat{"double_start_point": doubleStartPoint, "double_end_point": doubleEndPoint})
+		verifPoint(mdb, "B.window", startPoint, endPoint)
 
 		if _, err := hmA.data.Seek(int64(hmA.offset), 0); err != nil {
 			return err
@@ -259,15 +269,18 @@ func (mdb *MassDBV1) plotWork(cache *MemCache) error {
 			return err
 		}
 		hmB.data.Sync() // write plot data first
+		verifPoint(mdb, "B.dataSynced", startPoint, endPoint)
 
 		hmB.checkpoint = startPoint + 1
 		hmB.UpdateCheckpoint()
 		hmB.data.Sync() // then update checkpoint
+		verifPoint(mdb, "B.ckptSynced", startPoint, endPoint)
 		startPoint = endPoint
 	}
 
 	hmB.checkpoint = half
 	hmB.UpdateCheckpoint()
 	hmB.data.Sync()
+	verifPoint(mdb, "B.final", half, half)
 	return nil
 }
